@@ -22,7 +22,8 @@ EXTENDS Integers, Sequences, FiniteSets, TLC
 CONSTANTS Impls,        \* subset of {"pm", "mg"}
           MaxCalls,     \* API calls per behaviour
           MaxFaults,    \* failing primitive calls per behaviour
-          MaxPrim       \* largest primitive index a fault set may name
+          MaxPrim,      \* largest primitive index a fault set may name
+          PanicReads    \* TRUE: reads whose callback panics are explored as well
 
 VARIABLES impl,
           pg,           \* [mapped, locked, prot, secret]
@@ -35,6 +36,10 @@ VARIABLES impl,
           last          \* observable outcome of the last API call: [op, F, ok, sawBytes, dirtyRelease]
 
 vars == <<impl, pg, created, readers, closing, closed, inuse, stuckRO, ncalls, nfaults, last>>
+
+\* the read calls; WithBytesPanic = WithBytes whose callback panics (the caller recovers): the call does not return normally, yet
+\* the reader is gone and the page discipline is the same as after any other read
+ReadOps == {"WithBytes", "WithBytesFunc", "Reader", "WithBytesPanic"}
 
 NoPage == [mapped |-> FALSE, locked |-> FALSE, prot |-> "NONE", secret |-> FALSE]
 NoLast == [op |-> "", F |-> {}, ok |-> TRUE, sawBytes |-> FALSE, dirtyRelease |-> FALSE]
@@ -91,7 +96,7 @@ DoRead(op) == /\ created /\ ncalls < MaxCalls
                       /\ UNCHANGED <<pg, nfaults, stuckRO>>
                  ELSE \E F \in FaultSets : /\ Budget(F) /\ F \subseteq {1, 2}
                       /\ LET r == Read(pg, F) IN
-                         /\ pg' = r.pg /\ last' = [op |-> op, F |-> F, ok |-> r.ok, sawBytes |-> r.saw, dirtyRelease |-> FALSE]
+                         /\ pg' = r.pg /\ last' = [op |-> op, F |-> F, ok |-> r.ok /\ op # "WithBytesPanic", sawBytes |-> r.saw, dirtyRelease |-> FALSE]
                          /\ stuckRO' = IF 1 \in F THEN stuckRO ELSE (2 \in F)
                       /\ nfaults' = nfaults + Cardinality(F)
               /\ ncalls' = ncalls + 1 /\ UNCHANGED <<impl, created, readers, closing, closed, inuse>>
@@ -110,7 +115,7 @@ DoClose == /\ created /\ ncalls < MaxCalls
            /\ ncalls' = ncalls + 1 /\ UNCHANGED <<impl, created, readers>>
 
 Next == \/ DoCreate("New") \/ DoCreate("CreateRandom")
-        \/ DoRead("WithBytes") \/ DoRead("WithBytesFunc") \/ DoRead("Reader")
+        \/ DoRead("WithBytes") \/ DoRead("WithBytesFunc") \/ DoRead("Reader") \/ (PanicReads /\ DoRead("WithBytesPanic"))
         \/ DoClose
 Spec == Init /\ [][Next]_vars
 
@@ -121,14 +126,14 @@ IdleNoAccess == (created /\ ~closed /\ readers = 0 /\ ~stuckRO /\ ~closing) => p
 LockedWhileLive == (created /\ ~closing) => (pg.mapped /\ pg.locked /\ pg.secret)
 ClosedGone == closed => (~pg.mapped /\ ~pg.locked /\ ~pg.secret)
 \* C11: a read either shows the bytes or returns an error; after Close began it is an error
-ReadAfterClose == (last.op \in {"WithBytes", "WithBytesFunc", "Reader"} /\ closing) => ~last.ok /\ ~last.sawBytes
+ReadAfterClose == (last.op \in ReadOps /\ closing) => ~last.ok /\ ~last.sawBytes
 \* C12: a creation that failed returns an error and, unless its clean-up primitives failed too, leaves nothing mapped or locked
 FailedCreateLeavesNothing ==
    (last.op \in {"New", "CreateRandom"} /\ ~last.ok /\ Cardinality(last.F) = 1) => (~pg.mapped /\ ~pg.locked)
 \* C12: ... and never leaves readable secret bytes behind
 FailedCreateNoSecret == (last.op \in {"New", "CreateRandom"} /\ ~last.ok) => ~pg.secret
 \* C12: a failed attempt to open the secret for reading leaves it inaccessible with the reader count unchanged
-FailedOpenLeavesNoAccess == (last.op \in {"WithBytes", "WithBytesFunc", "Reader"} /\ 1 \in last.F) => ((pg.prot = "NONE" \/ stuckRO) /\ readers = 0 /\ ~last.sawBytes)
+FailedOpenLeavesNoAccess == (last.op \in ReadOps /\ 1 \in last.F) => ((pg.prot = "NONE" \/ stuckRO) /\ readers = 0 /\ ~last.sawBytes)
 \* C12: secret bytes are zeroed before their pages are unlocked or released
 NeverDirtyRelease == ~last.dirtyRelease
 \* C12: the in-use accounting stays balanced
